@@ -4,6 +4,8 @@ From K Require Import Lib.Types Model.Machine Model.Bus Model.Cost Model.Address
   Proofs.FlagProofs Proofs.AluProofs Proofs.RegProofs Proofs.BusProofs Proofs.StepProofs Proofs.MemProofs Proofs.CtlProofs Proofs.MovProofs.
 From K Require Import Proofs.StepRefines.
 From K Require Import Proofs.StepRefinesCtl Proofs.StepRefines2.
+From K Require Import Proofs.StepRefines4.
+From K Require Import Proofs.StepRefinesL.
 Open Scope Z_scope.
 
 (* MOV Rs,Rd (B/W/L): the value of the source lane is copied unchanged into the destination lane, N and Z
@@ -204,6 +206,60 @@ Theorem step_push :
     step s = Ok n (set_opc (pc s) s').
 Proof. exact step_mov_predec_proof. Qed.
 
+(* MOV.W #xx:16,Rd - both instruction words in memory *)
+Theorem step_mov_immediate_word :
+  forall s w d w2 w3 w4 imm rd n,
+    cpu_ok s -> bus_bytes_ok s -> fault s = false -> pc s mod 2 = 0 -> 0 <= pc s -> pc s + 4 < 4294967296 ->
+    mem_read SW s (pc s) = Some w -> mem_read SW s (pc s + 2) = Some d ->
+    decode_ref w d w2 w3 w4 = Some (IMovImm SW imm rd, 4) ->
+    cs KI 2 (post_fetch2 s) = Ok n (post_fetch2 s) ->
+    exists s', sem_ref (IMovImm SW imm rd) 4 s = Some s' /\ step s = Ok n (set_opc (pc s + 2) s').
+Proof. exact step_mov_imm_w_proof. Qed.
+
+(* MOV.L @ERs,ERd (prefix 0100): both instruction words in memory, any state *)
+Theorem step_mov_long_load :
+  forall s w1 w2 w3 w4 r rd n s',
+    cpu_ok s -> bus_bytes_ok s -> fault s = false -> pc s mod 2 = 0 -> 0 <= pc s -> pc s + 4 < 4294967296 ->
+    mem_read SW s (pc s) = Some 0x0100 -> mem_read SW s (pc s + 2) = Some w1 ->
+    decode_ref 0x0100 w1 w2 w3 w4 = Some (IMovLoad SL (EInd r) rd, 4) ->
+    sem_ref (IMovLoad SL (EInd r) rd) 4 s = Some s' ->
+    mov_charge SL (ea_addr SL s (EInd r)) 2 0 (set_opc (pc s + 2) s') = Ok n (set_opc (pc s + 2) s') ->
+    step s = Ok n (set_opc (pc s + 2) s').
+Proof. exact step_movl_load_ern_proof. Qed.
+
+(* MOV.L ERs,@ERd *)
+Theorem step_mov_long_store :
+  forall s w1 w2 w3 w4 rs r n s',
+    cpu_ok s -> bus_bytes_ok s -> fault s = false -> pc s mod 2 = 0 -> 0 <= pc s -> pc s + 4 < 4294967296 ->
+    mem_read SW s (pc s) = Some 0x0100 -> mem_read SW s (pc s + 2) = Some w1 ->
+    decode_ref 0x0100 w1 w2 w3 w4 = Some (IMovStore SL rs (EInd r), 4) ->
+    sem_ref (IMovStore SL rs (EInd r)) 4 s = Some s' ->
+    mov_charge SL (ea_addr SL s (EInd r)) 2 0 (set_opc (pc s + 2) s') = Ok n (set_opc (pc s + 2) s') ->
+    step s = Ok n (set_opc (pc s + 2) s').
+Proof. exact step_movl_store_ern_proof. Qed.
+
+(* POP.L ERd = MOV.L @ER7+,ERd (any address register) *)
+Theorem step_pop_long :
+  forall s w1 w2 w3 w4 r rd n s',
+    cpu_ok s -> bus_bytes_ok s -> fault s = false -> pc s mod 2 = 0 -> 0 <= pc s -> pc s + 4 < 4294967296 ->
+    mem_read SW s (pc s) = Some 0x0100 -> mem_read SW s (pc s + 2) = Some w1 ->
+    decode_ref 0x0100 w1 w2 w3 w4 = Some (IMovLoad SL (EPostInc r) rd, 4) ->
+    sem_ref (IMovLoad SL (EPostInc r) rd) 4 s = Some s' ->
+    incdec_charge SL (ea_addr SL s (EPostInc r)) (set_opc (pc s + 2) s') = Ok n (set_opc (pc s + 2) s') ->
+    step s = Ok n (set_opc (pc s + 2) s').
+Proof. exact step_pop_l_proof. Qed.
+
+(* PUSH.L ERs = MOV.L ERs,@-ER7 (any address register) *)
+Theorem step_push_long :
+  forall s w1 w2 w3 w4 rs r n s',
+    cpu_ok s -> bus_bytes_ok s -> fault s = false -> pc s mod 2 = 0 -> 0 <= pc s -> pc s + 4 < 4294967296 ->
+    mem_read SW s (pc s) = Some 0x0100 -> mem_read SW s (pc s + 2) = Some w1 ->
+    decode_ref 0x0100 w1 w2 w3 w4 = Some (IMovStore SL rs (EPreDec r), 4) ->
+    sem_ref (IMovStore SL rs (EPreDec r)) 4 s = Some s' ->
+    incdec_charge SL (ea_addr SL s (EPreDec r)) (set_opc (pc s + 2) s') = Ok n (set_opc (pc s + 2) s') ->
+    step s = Ok n (set_opc (pc s + 2) s').
+Proof. exact step_push_l_proof. Qed.
+
 Print Assumptions mov_register_refines.
 Print Assumptions mov_flags_rule.
 Print Assumptions byte_lane_read.
@@ -227,3 +283,8 @@ Print Assumptions step_mov_load_absolute8.
 Print Assumptions step_mov_store_absolute8.
 Print Assumptions step_pop.
 Print Assumptions step_push.
+Print Assumptions step_mov_immediate_word.
+Print Assumptions step_mov_long_load.
+Print Assumptions step_mov_long_store.
+Print Assumptions step_pop_long.
+Print Assumptions step_push_long.
